@@ -28,6 +28,12 @@ def _make_fn(P, scalar):
         def impl2(x, x2):
             return v0.to(x.device) + x @ V1.T.to(x.device) + x2 @ V2.T.to(x.device)
         ns = {"impl": impl2}
+        if P.get("kdef"):
+            # a third argument that is never supplied and has a Python default value (f(a, b, k=K)): partial
+            # evaluation of a or b must keep it; the default contributes nothing (k - K)
+            ns["K"] = torch.full((1, 1), 0.75)
+            exec(f"def fn({var}, {var2}, k_extra=K):\n    return impl({var}, {var2}) + (k_extra - 0.75)\n", ns)
+            return ns["fn"]
         if P.get("pydef"):
             # the second argument has a Python default value (never the value the cases supply)
             ns["dflt"] = torch.full((1, V2.shape[1]), 7.7)
